@@ -226,7 +226,6 @@ def mergeSelect (s : State) (f : File) (now : Nat) : Outcome (List Rec) :=
     match l with
     | [] => .ok acc
     | (off, r) :: rest =>
-      if s.opt.rw == 1 && mmapUnreadable s.opt.seg off r then .err else
       let skip0 := isFilter r now
       -- a newer record with the same bucket and key in the KV index (consulted for every structure)
       let skip := skip0 || (match (aget? s.kv r.bucket).bind (aget? · r.key) with
